@@ -628,10 +628,12 @@ class ExperimentPackage(StorageStructurePathResolver):
                     # VV: It's OK for the conf folder to already exist, it could have commonly used pipeline definitions
                     # in it which the flowir we're copying into the conf dir $imports
                     os.makedirs(conf_dir)
-                if file_format == "dsl":
-                    shutil.copyfile(path, os.path.join(conf_dir, "dsl.yaml"))
-                else:
-                    shutil.copyfile(path, os.path.join(conf_dir, "flowir_package.yaml"))
+                definition = os.path.join(conf_dir, "dsl.yaml" if file_format == "dsl" else "flowir_package.yaml")
+                if os.path.islink(definition):
+                    # VV: A manifest entry (e.g. "conf/flowir_package.yaml: x:link") may have placed a link here,
+                    #     replace it with a file of this instance instead of writing through it
+                    os.unlink(definition)
+                shutil.copyfile(path, definition)
             except OSError as e:
                 raise_with_traceback(experiment.model.errors.PackageCreateError(e, targetPath, path))
 
@@ -1497,6 +1499,10 @@ class ExperimentInstanceDirectory(StorageStructurePathResolver):
         dst = os.path.join(self.dataDir, name)
 
         if os.path.exists(dst):
+            if os.path.islink(dst):
+                # VV: Replace a link (e.g. to a shared dataset) with a file of this instance instead of
+                #     writing through it
+                os.unlink(dst)
             shutil.copyfile(path, dst)
         else:    
             raise experiment.model.errors.DataFileUpdateError(name)
